@@ -34,7 +34,7 @@ def _label(style: str, kind: str, idx: int, salt: str) -> str:
 # labels that look like names the library generates for itself or uses as sentinels (a legal label is any string)
 SPECIAL_LABELS = ['_PLACEHOLDER_STR_', '_PLACEHOLDER_STR_', 'inf_label', 'big_or', 'big_or', 'circuit1', 'circuit2', 'pairwise_xor',
                   'circuit1@0', 'circuit2@g1', 'circuit2@x0', 'pairwise_xor@xor_0', 'xor_0', 'not_g1', 'not_x0', 'not_0', 's2', 's3',
-                  'x_0', 'z_0', 'new_gate_LT_for_g1', 'new_0', 'N@g1', 'B@x0', 'sub0@g1',
+                  'x_0', 'z_0', 'new_gate_LT_for_g1', 'new_0', 'new_9', 'new_14', 'new_23', 'new_40', 'N@g1', 'B@x0', 'sub0@g1',
                   'block_for_deleting', '@', 'g1@', '0', '1']
 
 
@@ -186,6 +186,18 @@ def routes(draw, nl: dict, allow_bench: bool = True):
     ob = draw(st.sampled_from([None, None, None, None, 'copy', 'deepcopy', 'pickle', 'composed']))
     if ob:
         route['obtain'] = ob
+    return route
+
+
+@st.composite
+def free_routes(draw, allow_bench: bool = True):
+    """A construction route for a netlist that is only known inside the check (indices are taken modulo its size)."""
+    kind = draw(st.sampled_from(['emplace', 'add_gate', 'rename', 'rename'] + (['bench', 'bench'] if allow_bench else [])))
+    route = {'kind': kind}
+    if kind == 'rename':
+        route['moves'] = [draw(st.integers(0, 60)) for _ in range(draw(st.integers(1, 5)))]
+    if kind == 'bench':
+        route['keys'] = [draw(st.integers(0, 7)) for _ in range(draw(st.integers(3, 12)))]
     return route
 
 
